@@ -35,7 +35,7 @@ ROW_KIND = {
 def run(ctx):
     repo = ctx.repo
     res = Result(PROP)
-    res.rules = ["K1", "K2", "K5", "M-MAP", "M-EMPTY", "M-DTYPE", "M-ZERO", "M-ALIGN", "M-NORM"]
+    res.rules = ["K1", "K2", "K5", "M-MAP", "M-EMPTY", "M-DTYPE", "M-ZERO", "M-ALIGN", "M-FLOW", "M-NORM"]
     res.explanation = (
         "Narrow claim: kind inference over the matrix builders plus provenance of the returned index maps, definite "
         "assignment in the degenerate-shape branches and a dependency check on the multi-order normaliser. The numerical "
@@ -61,7 +61,10 @@ def run(ctx):
                      "def _w(H, e):\n    return H.edges[e].get('weight') or 1\n",
                      lambda n: f"`{unparse(n, 60)}` replaces a stored value by a default whenever it is falsy; an edge weight of 0 (an admissible non-negative weight) is silently counted as the default, so the weighted matrices no longer equal their definitions",
                      "`<lookup> or <default>` on stored weights/attributes")
-        from .common import misaligned_zips
+        from .common import check_dead_params, misaligned_zips
+
+        nd = check_dead_params(res, PROP, "M-FLOW", fns, "the matrix or the index maps returned")
+        res.floor("matrix builders checked for dead parameters", nd, 10)
 
         nz = 0
         for fn in fns:
